@@ -151,3 +151,16 @@ def c14_block_b(x):
 
 def c14_outer(x):
     return c14_block_a(x) + c14_block_b(x) + c14_block_a(x * 2.0)
+
+
+@onnx_function
+def c06_fn_in_loop(v):
+    import jax.numpy as jnp
+
+    return jnp.tanh(v) * 0.5 + 0.1
+
+
+def c06_loop_with_function(x):
+    from jax import lax
+
+    return lax.fori_loop(0, 3, lambda i, v: c06_fn_in_loop(v) + v, x)
